@@ -189,6 +189,11 @@ class Model(SOCModel):
                             more_exp.append(exp_cone_constr)
                     elif constr.xtype == 'X':
                         affine_out = constr.affine_out * (1/constr.multiplier)
+                        if constr.sum_axis is not False:
+                            aux_var = self.dvar(constr.affine_in.shape, aux=True)
+                            aux_sum = aux_var.sum(axis=constr.sum_axis)
+                            self.aux_constr.append(aux_sum + affine_out <= 0)
+                            affine_out = - aux_var.to_affine()
                         exprs_list = rso_broadcast(constr.affine_in, affine_out)
                         for exprs in exprs_list:
                             exp_cone_constr = ExpConstr(constr.model,
@@ -196,6 +201,11 @@ class Model(SOCModel):
                             more_exp.append(exp_cone_constr)
                     elif constr.xtype == 'L':
                         affine_out = constr.affine_out * (1/constr.multiplier)
+                        if constr.sum_axis is not False:
+                            aux_var = self.dvar(constr.affine_in.shape, aux=True)
+                            aux_sum = aux_var.sum(axis=constr.sum_axis)
+                            self.aux_constr.append(affine_out - aux_sum <= 0)
+                            affine_out = aux_var.to_affine()
                         exprs_list = rso_broadcast(constr.affine_in, affine_out)
                         for exprs in exprs_list:
                             exp_cone_constr = ExpConstr(constr.model,
